@@ -74,5 +74,14 @@ Proof. vm_compute. reflexivity. Qed.
 Lemma sweep_mem32_ok : forallb ok013 sweep_mem32 = true.
 Proof. vm_compute. reflexivity. Qed.
 
+(* IMUL r,imm (69 /r iw|id): every 16/32-bit register x boundary immediates x both modes; pass 1 sizes the form codegen
+   selects since the FindExactImmOutputSize fix in /repo *)
+Definition sweep_imul : list (Z * stmt) :=
+  flat_map (fun m => flat_map (fun wr => flat_map (fun r => flat_map (fun v =>
+      if (- 2 ^ (fst wr - 1) <=? v) && (v <? 2 ^ (fst wr - 1)) then [(m, SMnem "IMUL" [ident r; num v])] else [])
+        [0; 1; 4; 100; -1; -128; 127; 128; -129; 1000; 4608; 32767; -32768; 100000; 2147483647]) (snd wr)) [(16, r16); (32, r32)]) modes.
+Lemma sweep_imul_ok : forallb ok013 sweep_imul = true.
+Proof. vm_compute. reflexivity. Qed.
+
 Lemma sweep_sizes_ok : forallb ok03 (sweep_rr ++ sweep_ri ++ sweep_sreg ++ sweep_stack ++ sweep_push_imm ++ sweep_port) = true.
 Proof. vm_compute. reflexivity. Qed.
